@@ -221,6 +221,16 @@ package core
 //@ assume func defaultGlobalConfigFiles
 //@   pure
 //
+// List options accumulate across files, so their documented defaults must NOT be pre-populated before the
+// files are read (they are filled in by setDefault afterwards, only if still empty).
+//@ func DefaultConfiguration
+//@   opt nopanic=off
+//@   opt panics=allowed
+//@   ensures list_defaults_deferred [C39]: result != nil && len(result.Parse.BuildFileName) == 0 && len(result.Please.PluginRepo) == 0 && \
+//@      len(result.Build.HashCheckers) == 0 && len(result.Build.PassEnv) == 0 && len(result.Build.PassUnsafeEnv) == 0 && \
+//@      len(result.Cover.FileExtension) == 0 && len(result.Cover.ExcludeExtension) == 0 && len(result.Proto.Language) == 0 && \
+//@      len(result.Parse.BuildDefsDir) == 0
+//
 // Documented list defaults apply only when no source set the option.
 //@ func setDefault
 //@   requires conf != nil
